@@ -25,6 +25,8 @@ def http_scenarios(quick):
         combos = combos[::11]
     # always: an early refusal (the server answers before reading the upload) against every replayable body kind
     forced = [(si, bi, "background", 0, "none", via) for si in (len(scripts) - 2, len(scripts) - 1) for bi in range(len(bodies)) for via in ("roundtripper", "request")]
+    bodies.append(("stream0", 300))        # a plain stream whose ContentLength was left 0 (= unknown), as http.NewRequest does for reader types it does not know
+    forced += [(si, len(bodies) - 1, "background", pi, "none", via) for si in (2, 3, 7) for pi in (0, 1) for via in ("roundtripper", "request")]
     bodies.append(("stream", 600000))       # larger than what net/http's server drains on its own after an early answer
     forced += [(si, len(bodies) - 1, "background", 0, "none", via) for si in (len(scripts) - 2, len(scripts) - 1) for via in ("roundtripper", "request")]
     # always: the adapter's default retry policy running out of retries (the caller gets the LAST response inside the ExceededError)
@@ -80,6 +82,7 @@ def seek_reuse(sc, tr):
     return ("retry" in sc["policies"] or "retrybo" in sc["policies"]) and 1 < got < want
 
 
+LEAK_CLAUSES = {"mergerLeak", "responseNotClosed", "nilInnerSharesDefaultTransport"}
 TIMEOUT_CLAUSES = {"timeoutPrompt", "attemptCancelled"}      # C07 through the HTTP adapter: reported by C07's check
 
 
@@ -134,7 +137,7 @@ def run_http(ctx, only_leaks=False, only=None):
         vlib.add_violation(ctx, "http:protocol:%s%s" % (lines[hwm[0] - 1]["ev"], ",seekable-body-reuse" if seekrace else ""), "line %d is not a step of specs/HttpAdapter.tla: %s" % (hwm[0], json.dumps(lines[hwm[0] - 1])[:300]), dict(scenario=sc, trace=tr))
     else:
         ctx.traces += len(scs)
-    leak_clauses = {"mergerLeak", "responseNotClosed", "nilInnerSharesDefaultTransport"}
+    leak_clauses = LEAK_CLAUSES
     for (clause, ln) in sorted(viols):
         if only is not None:
             if clause not in only:
